@@ -4,6 +4,7 @@ import CedarVerif.Lemmas.ManifestValid
 import CedarVerif.Lemmas.ManifestLitValid
 import CedarVerif.Lemmas.ManifestSorted
 import CedarVerif.Lemmas.ManifestMono
+import CedarVerif.Lemmas.ManifestGrow
 import CedarVerif.Lemmas.TypecheckPolicy
 import CedarVerif.Thm.C01
 import CedarVerif.Thm.C11
@@ -547,6 +548,56 @@ example : SubStore Ex.sliced' Ex.sliced1 ∧
     rw [this]; exact hx
   exact slice_monotone_store Ex.manifest1 Ex.manifest Ex.req Ex.store _ _
     (rootsLeB_sound _ _ (by decide +kernel)) (flagsAgreeRootsB_sound _ _ (by decide +kernel)) hs hs'
+
+/-- C17: ADDING A POLICY CAN ONLY GROW THE SLICE.  If the analysis succeeds for the typed conditions `ps` and for
+`ps ++ [p]` (same schema, same request type), then the manifest entry of `ps ++ [p]` requests everything the entry of `ps`
+requests, with agreeing annotations (`rootsLeA` = `rootsLe` + agreeing `is_entity_type` flags: both tries are annotated by
+`to_typed` from the same schema types along the same paths), hence — for every request and store — the store sliced for
+`ps` is a sub-store of the store sliced for `ps ++ [p]`.  Hypothesis `hself`: the un-annotated trie of `ps` is comparable
+with itself (`rootsLe t0 t0`), which holds when root keys and ancestors-trie keys are unique, as they are in Rust's hash
+maps (the order looks keys up, so a trie with a duplicated key need not be `≤` itself); it is checkable (`rootsLeB`) and
+is NOT derived here from the analysis. -/
+theorem manifest_union_grows (s : Schema) (rt : ReqType) (ps : List TExpr) (p : TExpr) (t0 t t' : RootAccessTrie)
+    (h0 : manifestOfEnvs.go [] ps = .ok t0) (hself : rootsLe t0 t0)
+    (hm : manifestOfEnvs s rt ps = .ok t) (hm' : manifestOfEnvs s rt (ps ++ [p]) = .ok t') :
+    rootsLe t t' ∧ rootsLeA t t' ∧
+    ∀ (req : Request) (es : Entities), SubStore (sliceStorePure t' req es) (sliceStorePure t req es) := by
+  simp only [manifestOfEnvs, h0] at hm
+  simp only [manifestOfEnvs, go_snoc, h0] at hm'
+  cases hp : manifestOfExpr p with
+  | error x => simp [hp] at hm'
+  | ok r =>
+    simp only [hp] at hm'
+    have hle : rootsLe t0 (unionRoots t0 r.global) := rootsLe_union_right r.global t0 t0 hself
+    have hA := toTypedRoots_mono s rt _ _ t t' hle hm hm'
+    exact ⟨rootsLe_of_rootsLeA _ _ hA, hA, fun req es => sliceStorePure_mono t t' req es hA⟩
+
+namespace Ex
+def conds2 : List TExpr := [pol.cond, pol2.cond]
+def untyped2 : RootAccessTrie := match manifestOfEnvs.go [] conds2 with | .ok t => t | .error _ => []
+def manifest2 : RootAccessTrie := match manifestOfEnvs schema rt conds2 with | .ok t => t | .error _ => []
+end Ex
+
+/-- non-vacuity of `manifest_union_grows`: `p0, p1` extended by `p2` (`principal in Group::"g"`): all hypotheses hold; the
+grown slice keeps `alice`'s ancestor, the smaller one does not -/
+example : SubStore (sliceStorePure Ex.manifest Ex.req Ex.store) (sliceStorePure Ex.manifest2 Ex.req Ex.store) ∧
+    ((sliceStorePure Ex.manifest2 Ex.req Ex.store).find? Ex.alice).map (·.ancestors) = some [] ∧
+    ((sliceStorePure Ex.manifest Ex.req Ex.store).find? Ex.alice).map (·.ancestors) = some [Ex.grp] := by
+  refine ⟨?_, by decide +kernel, by decide +kernel⟩
+  have h0 : manifestOfEnvs.go [] Ex.conds2 = .ok Ex.untyped2 := by
+    obtain ⟨x, hx⟩ := ok_of_check (r := manifestOfEnvs.go [] Ex.conds2) (by decide +kernel)
+    have : Ex.untyped2 = x := by simp only [Ex.untyped2, hx]
+    rw [this]; exact hx
+  have hm : manifestOfEnvs Ex.schema Ex.rt Ex.conds2 = .ok Ex.manifest2 := by
+    obtain ⟨x, hx⟩ := ok_of_check (r := manifestOfEnvs Ex.schema Ex.rt Ex.conds2) (by decide +kernel)
+    have : Ex.manifest2 = x := by simp only [Ex.manifest2, hx]
+    rw [this]; exact hx
+  have hm' : manifestOfEnvs Ex.schema Ex.rt (Ex.conds2 ++ [Ex.pol3.cond]) = .ok Ex.manifest := by
+    obtain ⟨x, hx⟩ := ok_of_check (r := manifestOfEnvs Ex.schema Ex.rt Ex.conds) (by decide +kernel)
+    have : Ex.manifest = x := by simp only [Ex.manifest, hx]
+    rw [this]; exact hx
+  exact (manifest_union_grows Ex.schema Ex.rt Ex.conds2 Ex.pol3.cond Ex.untyped2 Ex.manifest2 Ex.manifest h0
+    (rootsLeB_sound _ _ (by decide +kernel)) hm hm').2.2 Ex.req Ex.store
 
 /-! ## strictly valid policies, conformant data: the C03 and C11 notions -/
 
